@@ -218,7 +218,22 @@ def run(pid, tier, replay):
         core.log("[%s] generated %d + %d histories in %.1fs" % (pid, parts[0][2], parts[1][2], time.time() - t0))
         t0 = time.time()
         obs = chk.path("obs_enum.ndjson")
-        core.run_bin(obj, ["tree-replay", cases, obs])
+        nproc = 1 if quick else 8          # the replay is single-threaded; split the case file for the big tier
+        lines = open(cases).read().split("\n")
+        lines = [x for x in lines if x]
+        chunks = []
+        for i in range(nproc):
+            cp, op = chk.path("cases.%d" % i), chk.path("obs_enum.%d" % i)
+            with open(cp, "w") as f:
+                f.write("\n".join(lines[i::nproc]) + "\n")
+            chunks.append((cp, op))
+        with ThreadPoolExecutor(max_workers=nproc) as ex2:
+            list(ex2.map(lambda c: core.run_bin(obj, ["tree-replay", c[0], c[1]], timeout=7200), chunks))
+        with open(obs, "w") as f:
+            for cp, op in chunks:
+                f.write(open(op).read())
+                os.unlink(cp)
+                os.unlink(op)
         core.log("[%s] replayed in %.1fs" % (pid, time.time() - t0))
         return parts, obs
 
